@@ -15,7 +15,7 @@ ASSUMPTIONS = [
 ]
 BOUNDS = {
     "quick": "8 contents sets (2-3 keys, prefix-related, hashed/embedded/mixed); prune x cache in all 4 combinations; schedules of <= 3 events with <= 1 mutation event, 2 query keys per fog query",
-    "thorough": "12 contents sets; schedules of <= 4 events with <= 1 mutation and of <= 3 events with <= 2 mutations; 2 query keys per fog query; all navigation configurations",
+    "thorough": "6 (other) contents sets; schedules of <= 4 events with <= 1 mutation and of <= 3 events with <= 2 mutations; 2 query keys per fog query; all navigation configurations",
 }
 OUTSIDE = "longer schedules, walks interleaved with squash_changes batches, missing nodes during the walk (C07), keys outside the pools"
 NONTRIVIAL_RULE = "schedule starts with a walk step and contains a mutation"
@@ -26,7 +26,7 @@ def jobs(tier):
     qbase = {"tier": "quick", "kpool": "K7", "seed": seed, "maxlen": 3, "lift": False}
     fam = hexquery.family_for(qbase)
     idx = [i for i, m in enumerate(fam) if len(m) >= 2]
-    idx = idx[::max(1, len(idx) // (8 if tier == "quick" else 12))][:8 if tier == "quick" else 12]
+    idx = idx[::max(1, len(idx) // 8)][:8] if tier == "quick" else idx[3::max(1, len(idx) // 6)][:6]
     out = []
     for mi in idx:
         for prune in (False, True):
